@@ -42,6 +42,9 @@ def gen_dict(rng, size):
             if out and 0xd800 <= ord(out[-1]) <= 0xdbff and 0xdc00 <= c <= 0xdfff:
                 c = 0x41
             out.append(chr(c))
+            if rng.random() < 0.08:
+                # line ends and blanks in every flavour: the text must come back unchanged
+                out += list(rng.choice(["\r\n", "\r", "\n", "\t", "\r\n\r\n", " \r\n ", "\u2028", "\x0b", "\x00"]))
         return "".join(out)
     d = {"code": text(size)}
     if rng.random() < 0.7:
@@ -70,12 +73,12 @@ def main(tier, seed):
         byte_cases.append(bytes(rng.randrange(256) for _ in range(rng.randint(301, 3000))))
     cases, records = [], []
     hist = {}
+    raised = []
     for bs in byte_cases:
         try:
             s, back = impl_transform(bs)
         except Exception as e:
-            run.violation("encode_data/decode_data raised on bytes",
-                          {"kind": "bytes", "bytes_hex": bs.hex(), "error": repr(e)})
+            raised.append((bs, repr(e)))
             continue
         run.count("evaluations")
         hist[len(bs) % 3] = hist.get(len(bs) % 3, 0) + 1
@@ -87,6 +90,13 @@ def main(tier, seed):
                           {"kind": "bytes", "bytes_hex": bs.hex(), "encoded": s})
         cases.append(f"({core.coq_N_list(bs)}, {core.coq_N_list(s.encode('latin-1', 'replace'))})")
         records.append((bs, s))
+    if raised and not records:
+        # the functions no longer run with the zlib/json oracles replaced by identities (their shape changed):
+        # the byte-level correspondence cannot be evaluated; the dictionary-level runs below search for an input
+        run.obligation_broken("byte-level correspondence of encode_data/decode_data (identity oracles)", raised[0][1])
+    else:
+        for bs, err in raised[:5]:
+            run.violation("encode_data/decode_data raised on bytes", {"kind": "bytes", "bytes_hex": bs.hex(), "error": err})
     try:
         bad = core.coq_mismatches(
             "c18", "From PV Require Import Base.Base64 Model.ShareLink.",
@@ -101,7 +111,8 @@ def main(tier, seed):
         run.violation("model and implementation disagree on url_encode/url_decode",
                       {"kind": "correspondence", "bytes_hex": bs.hex(), "impl_encoded": s}, no_input=True)
     run.cov["traces_validated_against_impl"] = len(cases)
-    run.sample({"bytes_hex": byte_cases[7].hex(), "encoded": records[7][1]})
+    if len(records) > 7:
+        run.sample({"bytes_hex": records[7][0].hex(), "encoded": records[7][1]})
 
     # --- whole pipeline on dictionaries (the property as stated)
     nd = 400 if tier == "quick" else 6000
